@@ -9,6 +9,13 @@ Written from `doc/pseudo-instructions.md` only:
   contained a label, the label still points to the address of the code or data object, i.e. right behind the pad byte.
   The same is true for a label in a source line immediately before, as long as this line only holds the label and no
   other instruction" (example: `adr3: equ *` followed by `nop` keeps the address of the pad byte).
+  Which label "the label in a source line immediately before" is when the padded line carries a label of its own is fixed by
+  upstream's own regression test of the section, `tests/t_padding/t_padding.asm`: "Only the most recent label is memorized
+  and possibly adapted. So in this case, label5 holds an odd address (of the pad byte...), and label6 the padded address …
+  The same is (of course) true if the second label is in the same line as the padded instruction" (`label7:` / `label8: nop`):
+  a label alone on the line before is moved behind the pad byte only while it is the most recently defined label, i.e. when
+  the padded statement carries no label of its own; otherwise the statement's own label is the one that points at the
+  object and the earlier one keeps the address it was defined at (the pad byte).
 * *MACRO / IRP / IRPN / IRPC / REPT / WHILE*: a macro call stands for "the enclosed instruction sequence"; `irp op,acc,b` /
   `push op` / `endm` "results in" `push acc` / `push b`; "the code between `REPT` and `ENDM` is assembled as often as the
   integer argument of `REPT` specifies".  A line that opens such a construct is therefore *replaced by its expansion*
@@ -134,10 +141,11 @@ structure S where
   cells : List (Nat × Byte) := []
   errs : List Nat := []
   /-- book-keeping for the harness: labels moved behind a pad byte - own label of the padded line, label of the line before a
-  line *without* own label, label of the line before a line *with* own label, fields of structures among them -/
+  line *without* own label (fields of structures among them) -; labels alone on the line before a padded line *with* a label
+  of its own (they keep the address of the pad byte) -/
   movedOwn : List Sym := []
   movedBefore : List Sym := []
-  movedBeforeLabelled : List Sym := []
+  keptBeforeLabelled : List Sym := []
 deriving Repr
 
 /-- the address labels read -/
@@ -168,8 +176,11 @@ def forget (s : S) : S := { s with pending := none, older := [] }
 
 def isOdd (x : Int) : Bool := x % 2 == 1
 
-/-- a line that lays down an object of `n` address units (`bytes = []`: only reserved) behind `pad` pad bytes -/
-def place (s : S) (ln : Line) (pad n : Nat) (bytes : List Byte) : Step :=
+/-- a line that lays down an object of `n` address units behind `pad` pad bytes; `wr`: the statement defines constants (`bytes`, and
+the pad bytes in front of them, are written) - otherwise it only reserves (`bytes = []`, nothing is written).  A statement of
+constants may lay no byte at all (`dc.w [0]5`: "a repeat count … may be prefixed to each parameter"): it is aligned like any
+other (`Spec/Data.lean`: the statement is aligned, not the individual item), the pad byte is written. -/
+def place (s : S) (ln : Line) (pad n : Nat) (wr : Bool) (bytes : List Byte) : Step :=
   let inUnion := match s.frame with | some f => f.isUnion | none => false
   if inUnion && pad != 0 then .unspecified
   else if s.frame.isSome && !bytes.isEmpty then .unspecified
@@ -178,17 +189,18 @@ def place (s : S) (ln : Line) (pad n : Nat) (bytes : List Byte) : Step :=
     let own : Option Sym := ln.label.map (symOf s)
     -- the label of the line: the address of the object
     let syms1 := match own with | some k => define s.syms k (some a) | none => s.syms
-    -- the label of the line immediately before: the same; labels further up: not covered by the text
-    let syms2 := if pad != 0 then
+    -- the label of the line immediately before, while it is the most recent label (the line has none of its own): the same;
+    -- labels further up: not covered by the text
+    let syms2 := if pad != 0 && own.isNone then
         (match s.pending with | some k => moveAll (move syms1 k (some a)) s.older none | none => syms1)
       else syms1
-    let cells := if bytes.isEmpty then s.cells
+    let cells := if !wr || s.frame.isSome then s.cells
       else s.cells ++ cellsAt s.pc.toNat (List.replicate pad 0) ++ cellsAt (s.pc.toNat + pad) bytes
     let s1 : S := { s with syms := syms2, cells := cells, pending := none, older := [],
                            movedOwn := if pad != 0 then s.movedOwn ++ own.toList else s.movedOwn,
                            movedBefore := if pad != 0 && own.isNone then s.movedBefore ++ s.pending.toList else s.movedBefore,
-                           movedBeforeLabelled := if pad != 0 && own.isSome then s.movedBeforeLabelled ++ s.pending.toList
-                                                  else s.movedBeforeLabelled }
+                           keptBeforeLabelled := if pad != 0 && own.isSome then s.keptBeforeLabelled ++ s.pending.toList
+                                                 else s.keptBeforeLabelled }
     match s.frame with
     | some f =>
       if f.isUnion then .ok { s1 with frame := some { f with maxLen := max f.maxLen n } }
@@ -229,19 +241,20 @@ def step (big : Bool) (s : S) (ln : Line) : Step :=
                                pc := f.savePc, frame := none }
   | .opener _ => .unspecified
   | .pbyte => .unspecified
-  | .bytes bs => place s ln 0 bs.length bs
+  | .bytes bs => place s ln 0 bs.length true bs
   | .obj bs =>
     if bs.isEmpty then .unspecified
-    else place s ln (if isOdd (epc s) && s.padding then 1 else 0) bs.length bs     -- PADDING OFF: the mechanism is not active
+    else place s ln (if isOdd (epc s) && s.padding then 1 else 0) bs.length true bs     -- PADDING OFF: the mechanism is not active
   | .dsx w n =>
-    if n = 0 || w = 0 then .unspecified
-    else place s ln (padBefore s.padding (epc s).toNat w) (n * w) []
+    -- (addresses below zero - a load address moved below a stacked PHASE offset - are no addresses of the manual: as for DC below)
+    if n = 0 || w = 0 || epc s < 0 then .unspecified
+    else place s ln (padBefore s.padding (epc s).toNat w) (n * w) false []
   | .moto st =>
     if epc s < 0 then .unspecified else
     match specStmt ⟨big, s.padding⟩ (epc s).toNat st with
-    | some (pad, .data bs) => place s ln pad bs.length bs
-    | some (pad, .space n) => place s ln pad n []
-    | some (pad, .empty) => place s ln pad 0 []
+    | some (pad, .data bs) => place s ln pad bs.length true bs
+    | some (pad, .space n) => place s ln pad n false []
+    | some (pad, .empty) => place s ln pad 0 false []
     | none =>
       -- refused: an error message, nothing placed; the label of a refused line is not judged
       let wouldPad : Nat := match st with | .dc e _ => padBefore s.padding (epc s).toNat e.bytes | _ => 0
